@@ -5,6 +5,7 @@ import (
 	"encoding/json"
 	"fmt"
 	"os"
+	"os/exec"
 	"path/filepath"
 	"reflect"
 	"strings"
@@ -38,6 +39,9 @@ func (c10) Batches(tier string, seed uint64) []core.Batch {
 	var b []core.Batch
 	for _, k := range c10Kinds {
 		b = append(b, spread(k, 3, tierN(tier, 900, 5000))...)
+	}
+	if tier == "thorough" {
+		b = append(b, spread("dpkg-source", 4, 12)...)
 	}
 	return b
 }
@@ -445,7 +449,173 @@ func (p c10) run(c *core.C, t *core.T, cs c10Case) {
 		p.debcontrol(c, r)
 	case "best":
 		p.best(c, r)
+	case "dpkg-source":
+		p.dpkgSource(c, t, r)
 	}
+}
+
+// dpkgSource (thorough): a source tree is written from a model and the REAL dpkg-source -b
+// produces the .dsc; ParseDscFile and ParseControlFile must return the model.
+func (p c10) dpkgSource(c *core.C, t *core.T, r *core.Rand) {
+	if !have("dpkg-source") {
+		c.Cover("dpkg-source:unavailable")
+		return
+	}
+	src := "vsrc" + r.Str("abcdefghij0123456789", r.Range(2, 8))
+	ver := fmt.Sprintf("%d.%d.%d", r.Intn(9), r.Intn(20), r.Intn(20))
+	if r.Bool() {
+		ver = fmt.Sprintf("%d:%s", 1+r.Intn(3), ver)
+	}
+	maint := person(r)
+	var uploaders []string
+	for k := r.Range(0, 3); k > 0; k-- {
+		uploaders = append(uploaders, person(r))
+	}
+	type bin struct{ name, arch string }
+	var bins []bin
+	for k := r.Range(1, 6); k > 0; k-- {
+		bins = append(bins, bin{src + "-" + r.Str("abcdefgh", r.Range(1, 24)), r.Pick([]string{"any", "all", "linux-any", "amd64 i386", "any-amd64"})})
+	}
+	// build dependencies dpkg accepts: real architectures, no substvars
+	var ast model.MDep
+	for k := r.Range(1, 5); k > 0; k-- {
+		var rel model.MRel
+		for a := r.Range(1, 2); a > 0; a-- {
+			// distinct names: dpkg-source simplifies repeated / implied relations away
+			ps := model.MPoss{Name: fmt.Sprintf("%s%d", r.Pick([]string{"debhelper", "libfoo-dev", "gcc-", "python3-all", "pkg-config", "libbar"}), len(ast)*10+len(rel))}
+			if r.Bool() {
+				ps.Op, ps.Ver = r.Pick(gen.Ops), fmt.Sprintf("%d.%d~rc%d", r.Intn(9), r.Intn(9), r.Intn(3))
+			}
+			if r.Chance(1, 3) {
+				ps.Archs, ps.ArchNot = []string{r.Pick([]string{"linux-any", "amd64", "kfreebsd-any"})}, r.Bool()
+			}
+			if r.Chance(1, 3) {
+				ps.Profiles = [][]model.MStage{{{Name: "nocheck", Not: r.Bool()}}}
+			}
+			if r.Chance(1, 4) {
+				ps.Qual = r.Pick([]string{"native", "any"})
+			}
+			ps.Normalise()
+			rel = append(rel, ps)
+		}
+		ast = append(ast, rel)
+	}
+	root := filepath.Join(t.WorkDir, "c10src")
+	os.RemoveAll(root)
+	defer os.RemoveAll(root)
+	upstream := ver
+	if i := strings.IndexByte(ver, ':'); i >= 0 {
+		upstream = ver[i+1:]
+	}
+	tree := filepath.Join(root, src+"-"+upstream)
+	os.MkdirAll(filepath.Join(tree, "debian", "source"), 0o755)
+	var ctl strings.Builder
+	ctl.WriteString("Source: " + src + "\nSection: misc\nPriority: optional\nMaintainer: " + maint + "\n")
+	if len(uploaders) > 0 {
+		ctl.WriteString("Uploaders: " + strings.Join(uploaders, ",\n ") + "\n")
+	}
+	ctl.WriteString("Build-Depends: " + strings.ReplaceAll(ast.Render(func(slot string) string {
+		if slot == model.SlAfterComma {
+			return "\n"
+		}
+		return model.Canonical(slot)
+	}, false), "\n", "\n ") + "\nStandards-Version: 4.6.2\nHomepage: https://example.org/" + src + "\n")
+	for _, b := range bins {
+		ctl.WriteString("\nPackage: " + b.name + "\nArchitecture: " + b.arch + "\nDescription: " + b.name + "\n long text\n")
+	}
+	os.WriteFile(filepath.Join(tree, "debian", "control"), []byte(ctl.String()), 0o644)
+	os.WriteFile(filepath.Join(tree, "debian", "changelog"), []byte(fmt.Sprintf("%s (%s) unstable; urgency=low\n\n  * x\n\n -- %s  Mon, 02 Jan 2006 15:04:05 +0000\n", src, ver, maint)), 0o644)
+	os.WriteFile(filepath.Join(tree, "debian", "source", "format"), []byte("3.0 (native)\n"), 0o644)
+	os.WriteFile(filepath.Join(tree, "debian", "rules"), []byte("#!/usr/bin/make -f\n%:\n\ttrue\n"), 0o755)
+	os.WriteFile(filepath.Join(tree, "payload"), r.Bytes(r.Range(10, 3000)), 0o644)
+	cmd := exec.Command("dpkg-source", "-b", filepath.Base(tree))
+	cmd.Dir = root
+	if out, err := cmd.CombinedOutput(); err != nil {
+		c.Cover("~inconclusive:dpkg-source rejects a generated source tree (generator self-check)")
+		_ = out
+		return
+	}
+	dscPath := filepath.Join(root, src+"_"+upstream+".dsc")
+	d, err := control.ParseDscFile(dscPath)
+	if err != nil || d == nil {
+		raw, _ := os.ReadFile(dscPath)
+		c.Failf("ParseDscFile failed on a .dsc written by dpkg-source: %v\n%s", err, raw)
+		return
+	}
+	raw, _ := os.ReadFile(dscPath)
+	text := string(raw)
+	var names []string
+	hasAll, hasAny := false, false
+	for _, b := range bins {
+		names = append(names, b.name)
+		if b.arch == "all" {
+			hasAll = true
+		} else {
+			hasAny = true
+		}
+	}
+	if d.Source != src || d.Version != libVer(splitText(ver)) || d.Maintainer != maint || d.Format != "3.0 (native)" || d.StandardsVersion != "4.6.2" || d.Homepage != "https://example.org/"+src {
+		c.Failf("real .dsc: scalar fields differ from the source tree: %+v\n%s", *d, text)
+	}
+	if !eqLines(d.Binaries, names) {
+		c.Failf("real .dsc: Binaries = %q, the source tree builds %q\n%s", d.Binaries, names, text)
+	}
+	if !eqLines(d.Uploaders, uploaders) && !(len(d.Uploaders) == 0 && len(uploaders) == 0) {
+		c.Failf("real .dsc: Uploaders = %q, debian/control lists %q\n%s", d.Uploaders, uploaders, text)
+	}
+	if diff := diffDep(&d.BuildDepends, ast); diff != "" {
+		c.Failf("real .dsc: Build-Depends: %s\n%s", diff, text)
+	}
+	if d.HasArchAll() != hasAll {
+		c.Failf("real .dsc: HasArchAll() = %v, binaries %v\n%s", d.HasArchAll(), bins, text)
+	}
+	_ = hasAny
+	tarName := src + "_" + upstream + ".tar.xz"
+	tb, terr := os.ReadFile(filepath.Join(root, tarName))
+	if terr == nil {
+		for what, fh := range map[string][]control.FileHash{"Files": filesOf(d.Files), "Checksums-Sha1": sha1Of(d.ChecksumsSha1), "Checksums-Sha256": sha256Of(d.ChecksumsSha256)} {
+			algo := map[string]string{"Files": "md5", "Checksums-Sha1": "sha1", "Checksums-Sha256": "sha256"}[what]
+			if len(fh) != 1 || fh[0].Filename != tarName || fh[0].Size != int64(len(tb)) || fh[0].Hash != fmt.Sprintf("%x", digest(algo, tb)) || fh[0].Algorithm != algo {
+				c.Failf("real .dsc: %s = %+v; the tarball %s has %d bytes, %s %x", what, fh, tarName, len(tb), algo, digest(algo, tb))
+			}
+		}
+	}
+	// the same tree's debian/control through ParseControlFile
+	ct, err := control.ParseControlFile(filepath.Join(tree, "debian", "control"))
+	if err != nil || ct == nil {
+		c.Failf("ParseControlFile failed on the generated debian/control: %v", err)
+	} else {
+		if ct.Source.Source != src || ct.Source.Maintainer != maint || !(eqLines(ct.Source.Uploaders, uploaders) || len(uploaders) == 0 && len(ct.Source.Uploaders) == 0) || len(ct.Binaries) != len(bins) {
+			c.Failf("debian/control of the same tree: %+v", ct.Source)
+		}
+		if diff := diffDep(&ct.Source.BuildDepends, ast); diff != "" {
+			c.Failf("debian/control Build-Depends: %s", diff)
+		}
+	}
+	c.Cover("dpkg-source:real-dsc-compared")
+	c.Nontrivial()
+}
+
+func filesOf(in []control.MD5FileHash) []control.FileHash {
+	var o []control.FileHash
+	for _, f := range in {
+		o = append(o, f.FileHash)
+	}
+	return o
+}
+func sha1Of(in []control.SHA1FileHash) []control.FileHash {
+	var o []control.FileHash
+	for _, f := range in {
+		o = append(o, f.FileHash)
+	}
+	return o
+}
+func sha256Of(in []control.SHA256FileHash) []control.FileHash {
+	var o []control.FileHash
+	for _, f := range in {
+		o = append(o, f.FileHash)
+	}
+	return o
 }
 
 func coverLayout(c *core.C, d *c10Doc) {
